@@ -29,6 +29,14 @@ CHECKS = {
    text="Differential testing against an independent ECC 200 construction (internal/dmref): all 30 sizes x codeword vectors (ECC interleave, Annex F placement), full writer output vs reference symbol, factor tables vs prod(x-2^i), randomisers for positions 1..1558, encoder/decoder size tables vs the standard's attribute table. Sizes, tables and formulae enumerated completely; vectors and texts sampled.",
    note="Trusted: internal/dmref (attribute table typed from ISO 16022 table 7 with the cells/8 identity as self-check, Annex F placement re-implemented). 144x144 parity order as read by the library's decoder and de-facto implementations.",
    tech="differential testing against an independent reference construction; exhaustive over sizes and tables"),
+ "C05": dict(cat="fault_enumeration", ref="DESIGN.md §4 C05",
+   text="Fault enumeration: library-written symbols are damaged through module flips located by the independent module->codeword maps, with at most floor(ec/2) codewords per RS block; all <=3-bit error patterns of every format and version word are enumerated; single-codeword faults are enumerated over every position of every block for every (version, level) and every Data Matrix size in the thorough tier; multi-fault sets up to capacity in all blocks are rapid-generated.",
+   note="Trusted: the reference placement / block maps (shown by C07/C08 to agree with the library's writer); the undamaged symbol is produced by the library's own writer.",
+   tech="fault enumeration (exhaustive small patterns / positions) + property-based fault-set generation with a round-trip oracle"),
+ "C13": dict(cat="exploration", ref="DESIGN.md §4 C13",
+   text="The chosen QR version is compared with the minimum computed from the standard's capacity formulae for every mode x level at every per-version boundary (quick) and every length 1..cap(40)+1 (thorough), forced versions accepted/refused exactly; Data Matrix lookup is compared with the first admissible row of the reference table for every codeword count x shape x (min,max) pair, and at writer level with digit strings of known codeword count.",
+   note="Trusted: capacity formulae in internal/qrref and the attribute table in internal/dmref, both anchored to the published figures (7089/4296/2953/1817, 1558) at the start of every run.",
+   tech="exhaustive enumeration against an independently computed minimum"),
 }
 
 NOT_YET = {}
